@@ -1,6 +1,6 @@
 """C04 — duplicate-key policy is applied exactly, for keys of every YAML kind (DESIGN §4 C04)."""
 from ..mir import MissingAnchor, sym_contains, norm
-from ..rules import (render, aggregates, last_seg, bool_switches, must_pass, switch_edges, ev_switches, depth_effects, arm_effects)
+from ..rules import (err_return_blocks, render, aggregates, last_seg, bool_switches, must_pass, switch_edges, ev_switches, depth_effects, arm_effects)
 
 EXPLANATION = ("SIBLING / BALANCE / TABLE rules over the resolved MIR of the mapping access: the two policy-dispatch sites (buffered "
                "and live path) agree per policy — Error ∧ duplicate returns the duplicate-key error located at the *key node*; "
@@ -196,7 +196,16 @@ def run(ctx):
             ctx.check(okF, "SIBLING", "C04:SIBLING:%s:FirstWins" % kind,
                       "FirstWins ∧ duplicate → nothing delivered%s" % (", exactly one node skipped" if kind == "live" else ", nothing consumed"),
                       "policy FirstWins (%s path): a later duplicate entry is delivered, or its value is not skipped / something else is consumed" % kind, config, where)
-            ctx.check(not eL, "SIBLING", "C04:SIBLING:%s:LastWins" % kind, "LastWins delivers every entry (no duplicate test that is specific to it)", "policy LastWins (%s path) now tests for duplicates" % kind, config, where)
+            # LastWins: a repeated key is delivered like any other.  Either no duplicate test is specific to it, or what lies behind
+            # `LastWins ∧ duplicate` neither errors nor goes back to the loop head without delivering
+            okL = True
+            for e, _d in eL:
+                reach = f.reachable([e], avoid=loop_heads)
+                if set(dup_err) & reach:
+                    okL = False
+                if not must_pass(f, [e], list(delivered) + list(err_return_blocks(f)), to_blocks=set(loop_heads)):
+                    okL = False
+            ctx.check(okL, "SIBLING", "C04:SIBLING:%s:LastWins" % kind, "LastWins delivers every entry (a repeated key neither errors nor is dropped)", "policy LastWins (%s path): a repeated key is reported or dropped instead of delivered" % kind, config, where)
             # on the live path the duplicate test applies to ordinary keys only: a `<<` entry is never in the seen-set as a key, but a
             # *quoted* "<<" key has the same fingerprint (style is not part of it), so a test made before the merge-key test takes
             # a later merge entry for a repeat
